@@ -470,7 +470,7 @@ std::vector<double> GridGlobal::getCandidateConstructionPoints(std::function<dou
 
     std::vector<double> tweights(new_tensors.getNumIndexes());
     for(int i=0; i<new_tensors.getNumIndexes(); i++)
-        tweights[i] = (double) getTensorWeight(new_tensors.getIndex(i));
+        tweights[i] = std::max(0.0, (double) getTensorWeight(new_tensors.getIndex(i))); // negative weights are reserved for the initial tensors
 
     for(int i=0; i<new_tensors.getNumIndexes(); i++)
         dynamic_values->addTensor(new_tensors.getIndex(i), [&](int l)->int{ return wrapper.getNumPoints(l); }, tweights[i]);
